@@ -160,6 +160,7 @@ let answer (w : string list) : string =
               if cert_ans <> sparse_ans then "MODELDIFF certified=" ^ cert_ans ^ " sparse=" ^ sparse_ans ^ " ## -"
               else cert_ans ^ " ## certified"
           end else sparse_ans ^ " ## uncertified"
+        | ("tcof" | "vtx"), _ -> "- ## -"     (* "an arbitrary one": only the specification is evaluated, by the plugin *)
         | "key", _ -> "ok"
         | _ -> "UNSUPPORTED"))
   | [] -> ""
